@@ -120,6 +120,15 @@ fn mk_string2() -> String {
     kani::assume(std::str::from_utf8(&c).is_ok());
     String::from_utf8(vec![c[0], c[1]]).unwrap()
 }
+fn mk_ascii2() -> String {
+    // ASCII only: valid UTF-8 by construction (no from_utf8 over symbolic bytes in the harness itself)
+    let c: [u8; 2] = kani::any();
+    kani::assume(c[0] < 0x80 && c[1] < 0x80);
+    let mut s = String::with_capacity(2);
+    s.push(c[0] as char);
+    s.push(c[1] as char);
+    s
+}
 fn mk_string3() -> String {
     let c: [u8; 3] = kani::any();
     kani::assume(std::str::from_utf8(&c).is_ok());
@@ -138,6 +147,7 @@ fn enc_str(s: &str, o: &mut Out) {
 }
 rt_h!(c01_rt_string2, 26, String, mk_string2(), ty(TypeInner::Text), |v: &String, o: &mut Out| enc_str(v, o), |a: &String, b: &String| a == b);
 rt_h!(c01_rt_string3, 26, String, mk_string3(), ty(TypeInner::Text), |v: &String, o: &mut Out| enc_str(v, o), |a: &String, b: &String| a == b);
+rt_h!(c01_rt_ascii2, 26, String, mk_ascii2(), ty(TypeInner::Text), |v: &String, o: &mut Out| enc_str(v, o), |a: &String, b: &String| a == b);
 rt_h!(c01_rt_string0, 26, String, String::new(), ty(TypeInner::Text), |v: &String, o: &mut Out| enc_str(v, o), |a: &String, b: &String| a == b);
 
 // ---- options
